@@ -236,6 +236,7 @@ def check_lifecycle(ctx: Ctx, rule_prefix: str, want: Set[str]):
             "slot": ("slot is released a second time", "before the task's slot was released"),
             "loc": ("filed in no registry", "two registries at once"),
             "end": ("end callback runs", "not called with the task's id"),
+            "id": ("not called with the task's id",),
             "cancel": ("cancel callback runs",),
         }
         for ev in lc.ai.events:
